@@ -97,7 +97,9 @@ def gen_seq(rng, quick):
             else:
                 out = {"k": "scalar", "y": y}
         ops.append({"op": "call", "x": x, "out": out, "rd": rng.random() < 0.75})
-    return {"D": D, "he": he, "noise": noise, "cache": cache, "use_tr": use_tr, "reuse": reuse, "ops": ops}
+    # a target that modifies the array it is handed (x -= c, x[x < 0] = 0, ...): what is logged is where the evaluation was ASKED
+    mutate = rng.random() < 0.2
+    return {"D": D, "he": he, "noise": noise, "cache": cache, "use_tr": use_tr, "reuse": reuse, "mutate": mutate, "ops": ops}
 
 
 def run_impl(seq, rng):
@@ -115,6 +117,8 @@ def run_impl(seq, rng):
 
     def fun(xo):
         v = q.pop(0)
+        if seq.get("mutate") and isinstance(xo, np.ndarray):
+            xo += 1.0               # in place
         if v is Raised:
             raise Raised("scripted")
         return v
